@@ -181,6 +181,8 @@ class Optimizer:
         ArrayLike
             The objective for the optimizer.
         """
+        if not np.all(np.isfinite(parameters)):
+            raise ValueError(f"The optimizer requested non-finite parameter values: {parameters}")
         self._parameters.set_from_label_and_value_arrays(self._free_parameter_labels, parameters)
         return self.calculate_penalty()
 
